@@ -135,7 +135,8 @@ def _hash_word_vs_box(pid, facet, spec, label):
 
 
 def _c13(pid, facet, spec):
-    return pid == "C13" and facet in ("export", "roundtrip") and "d" in spec
+    return pid == "C13" and "d" in spec and facet in (
+        "export", "export_registers", "roundtrip")
 
 
 @matcher("to-tk-classical-then-register")
